@@ -107,9 +107,47 @@ func directMapOps(f *ssa.Function) *mapOps {
 					o.deletes[fv] = append(o.deletes[fv], in)
 				}
 			}
+			// a sync.Map field is a map like any other
+			if fv, kind := syncMapOp(x); fv != nil {
+				switch kind {
+				case "lookup":
+					o.lookups[fv] = append(o.lookups[fv], in)
+				case "insert":
+					o.inserts[fv] = append(o.inserts[fv], in)
+				case "both":
+					o.lookups[fv] = append(o.lookups[fv], in)
+					o.inserts[fv] = append(o.inserts[fv], in)
+				case "delete":
+					o.deletes[fv] = append(o.deletes[fv], in)
+				}
+			}
 		}
 	})
 	return o
+}
+
+// syncMapOp: a Load/Store/LoadOrStore/Delete call on a struct field of type sync.Map.
+func syncMapOp(call ssa.CallInstruction) (*types.Var, string) {
+	g := call.Common().StaticCallee()
+	if g == nil || g.Signature.Recv() == nil || typeStr(g.Signature.Recv().Type()) != "*sync.Map" || len(call.Common().Args) == 0 {
+		return nil, ""
+	}
+	fa, ok := call.Common().Args[0].(*ssa.FieldAddr)
+	if !ok {
+		return nil, ""
+	}
+	fv := fieldVarOf(fa)
+	switch g.Name() {
+	case "Load":
+		return fv, "lookup"
+	case "Store", "Swap":
+		return fv, "insert"
+	case "LoadOrStore", "CompareAndSwap":
+		return fv, "both"
+	case "Delete", "LoadAndDelete", "CompareAndDelete":
+		return fv, "delete"
+	}
+	return nil, ""
 }
 
 // deepMapOps: the map fields f (with its closures and static repo callees, two levels)
@@ -169,6 +207,19 @@ func (c *Ctx) instrMapOps(in ssa.Instruction) (lk, ins, del map[*types.Var]bool)
 	}
 	call, ok := in.(ssa.CallInstruction)
 	if !ok {
+		return
+	}
+	if fv, kind := syncMapOp(call); fv != nil {
+		switch kind {
+		case "lookup":
+			lk[fv] = true
+		case "insert":
+			ins[fv] = true
+		case "both":
+			lk[fv], ins[fv] = true, true
+		case "delete":
+			del[fv] = true
+		}
 		return
 	}
 	if b, ok := call.Common().Value.(*ssa.Builtin); ok {
@@ -231,6 +282,9 @@ func (c *Ctx) condMapFields(v ssa.Value, depth int, seen map[ssa.Value]bool, out
 		lk, _, _ := c.instrMapOps(x)
 		for k := range lk {
 			out[k] = true
+		}
+		if fv, kind := syncMapOp(x); fv != nil && (kind == "lookup" || kind == "both") {
+			out[fv] = true
 		}
 	}
 }
